@@ -619,6 +619,7 @@ def tbl11_json_renderers(ctx):
     # encode_column: signature bits and the variants each accepted signature handles
     fn = ast.fn('encode_column', f)
     bits = {}
+    sigvars = set()
     for m in find(fn, 'match'):
         local = {}
         for arm in m['arms']:
@@ -628,6 +629,7 @@ def tbl11_json_renderers(ctx):
                         and 'int' in n['rhs']:
                     for v in vs:
                         local[v] = int(n['rhs']['int'])
+                    sigvars |= idents_in(n['lhs'])
         if len(local) >= 2:
             bits = local
             break
@@ -641,7 +643,7 @@ def tbl11_json_renderers(ctx):
         consts = []
         for n in walk(iff['cond']):
             if n.get('k') == 'binary' and n.get('op') == '==' and n['rhs'].get('k') == 'lit' \
-                    and 'int' in n['rhs'] and 'type_signature' in idents_in(n['lhs']):
+                    and 'int' in n['rhs'] and (sigvars & idents_in(n['lhs'])):
                 consts.append(int(n['rhs']['int']))
         if not consts:
             continue
